@@ -172,6 +172,17 @@ def gen_cases(seed, tier, insts):
                 c = Case(inst, ext, strides=st, stream='empty-huge-strides')
                 c.ops = [('span', None), ('strides', None), ('stridesarr', None), ('flags', None), ('cvs', None)]
                 cases.append(c)
+    # ---- layout_stride mappings that are valid only BECAUSE an extent is zero (the standard's permutation condition is vacuous after a zero
+    #      extent): the product of the extents is far beyond the index type, the span size with zero extents counted as one is small
+    for t in C.ITYPES:
+        H = C.hi(t); b = math.isqrt(H) + rnd.randint(2, 40)
+        inst = dyn.get(('stride', t, 3))
+        if inst is None or 1 + 2 * (b - 1) + 1 > H or b > H: continue
+        for zpos in (0, 1, 2):
+            ext = [b, b, b]; ext[zpos] = 0; st = [1, 1, 1]; st[zpos] = b
+            c = Case(inst, ext, strides=st, stream='valid-because-empty')
+            c.ops = [('span', None), ('strides', None), ('flags', None)]
+            cases.append(c)
     # ---- padding argument of a NARROWER type than index_type while the extent to pad is beyond that type's range
     for t, pt, big in (('i32', 'u8', 300), ('i32', 'i16', 40000), ('u32', 'u8', 257), ('i64', 'i32', 2 ** 32 + 5), ('u64', 'i16', 70000), ('u16', 'u8', 1000), ('i64', 'u8', 2 ** 40 + 3)):
         for r in (2, 3):
@@ -243,6 +254,19 @@ def run_cases(cases, exe):
         c.impl = [canon(x) for x in iout[pi:pi + n]]; c.model = [canon(x) for x in mout[pm:pm + n]]
         pi += n; pm += n
     return len(impl_lines)
+
+def prop_adm_stride(c):
+    """admissibility of a layout_stride mapping read literally from the property text and the standard's precondition: positive strides,
+    a permutation P with stride(P_i) >= stride(P_{i-1}) * extent(P_{i-1}) (actual extents: a zero extent makes the next condition vacuous),
+    every value and the span size with zero extents counted as one representable.  Weaker than the model's Layout.admB (which counts
+    zero extents as one in the permutation condition too); used only to judge a trap the model does not predict."""
+    if c.kind != 'stride' or c.str is None: return False
+    H = C.hi(c.T); e, s = c.ext, c.str; r = len(e)
+    if r > 6 or any(x <= 0 for x in s) or any(x > H for x in list(e) + list(s)): return False
+    if 1 + sum((max(x, 1) - 1) * y for x, y in zip(e, s)) > H: return False
+    for P in itertools.permutations(range(r)):
+        if all(s[P[i]] >= s[P[i - 1]] * e[P[i - 1]] for i in range(1, r)): return True
+    return False
 
 # ------------------------------------------------------------------ property oracles on the implementation
 def least_multiple(p, e):
